@@ -155,7 +155,7 @@ func (a *tapApp) CommitBlock(block *types.Block, parts *types.PartSet, seen *typ
 	if parts != nil {
 		id.PartsHeader = parts.Header()
 	}
-	rec.label = w.labels[id.Hash]
+	rec.label = w.labels[idKey(id)]
 	if int(block.Height) < len(w.canon) && w.canon[block.Height] != nil {
 		cb := w.canon[block.Height]
 		rec.canonical = cb.id.Equals(id) && bytes.Equal(cb.wire, encodeBlockResponse(block))
@@ -220,7 +220,7 @@ func (s *sim) oracle() bool {
 			return false
 		}
 		if !meta.BlockID.Equals(cb.id) || !bytes.Equal(encodeBlockResponse(b), cb.wire) {
-			lab := w.labels[b.Hash()]
+			lab := w.labels[idKey(meta.BlockID)]
 			if lab == "" {
 				lab = "not-made-by-harness"
 			}
